@@ -570,7 +570,7 @@ Section RoundTrip.
   Proof.
     intros W. unfold back, import_data. cbn [d_traj fst snd tx_images export_txt]. unfold export_timages. rewrite W.
     f_equal. unfold import_traj_txt.
-    rewrite (fold_set2_fresh (@ti_id tok) (fun ti => cam_name (ti_cam ti)) (pose_of_timage tok read)).
+    rewrite (fold_set2_fresh (@ti_id tok) (fun ti => cam_name (ti_cam tok ti)) (pose_of_timage tok read)).
     - cbn [app]. rewrite map_flat_map. apply flat_map_ext_in. intros ie _. unfold timage_of, traj_entry.
       destruct (lookup2 (its (snd ie)) (icam (snd ie)) T) as [p|]; [|reflexivity]. cbn. unfold pose_of_timage. cbn.
       rewrite !read_show, pose_record. reflexivity.
@@ -594,8 +594,396 @@ Section RoundTrip.
     { intros x kv. unfold traj_entry. destruct (lookup2 _ _ T); cbn; [intros [<-|[]]; reflexivity | tauto]. }
     rewrite (lookup_flat_map_single (fun ie : Z * (Z * string * string) => fst ie) (traj_entry d T) K
                (numbered_images d) (i, e) (number_from_NoDup _ _) Ii).
-    unfold traj_entry. cbn [fst snd its icam].
-    destruct (lookup2 (fst (fst e)) (snd (fst e)) T) as [p|]; [|reflexivity].
-    cbn [lookup]. rewrite !eqb_refl. reflexivity.
+    unfold traj_entry. cbn [fst snd].
+    destruct (lookup2 (its e) (icam e) T) as [p|]; [|reflexivity].
+    cbn [lookup]. rewrite eqb_refl. cbn [lookup]. rewrite eqb_refl. reflexivity.
+  Qed.
+
+  (* ---------------------------------------------------------------- keypoints and descriptors *)
+  Lemma resolve_name d name : NoDup (image_names d) -> In name (image_names d) ->
+    name_of_id (Rdb d) (id_of d name) = Some name.
+  Proof.
+    intros ND I. destruct (known_numbered d name I) as (i & e & Ii & <-).
+    rewrite (id_of_numbered d i e ND Ii). apply name_of_id_records; assumption.
+  Qed.
+
+  Lemma match_nonempty {A B} (l : list A) (X : B) : l <> [] -> match l with [] => None | _ :: _ => Some X end = Some X.
+  Proof. destruct l; [congruence | reflexivity]. Qed.
+
+  Lemma import_export_feats d cut f dc name : NoDup (image_names d) -> feats_in_range d cut (Some f) = true ->
+    feats_of (import_feats (Rdb d) dc (export_feats d cut (Some f))) name = lookup name (f_files f).
+  Proof.
+    intros ND FR. unfold feats_in_range in FR. rewrite !andb_true_iff in FR. destruct FR as [[Hnd Hkn] Hcols].
+    apply nodupb_NoDup in Hnd. rewrite forallb_forall in Hkn.
+    unfold export_feats. cbv zeta. rewrite Hcols. cbv iota. unfold import_feats. cbv zeta.
+    assert (E : map (fun e : Z * Z * rows => (dflt "" (name_of_id (Rdb d) (fst (fst e))), snd (fst e), snd e))
+                    (map (fun nr : string * list (list Q) => (id_of d (fst nr), f_cols f, snd nr)) (f_files f))
+                = map (fun nr : string * list (list Q) => (fst nr, f_cols f, snd nr)) (f_files f)).
+    { rewrite map_map. apply map_ext_in. intros nr I. cbn [fst snd].
+      rewrite resolve_name; [reflexivity | assumption|]. apply memb_In, Hkn. unfold keys. apply in_map. assumption. }
+    rewrite E.
+    assert (D : f_files f = [] \/ f_files f <> []) by (destruct (f_files f); [left; reflexivity | right; discriminate]).
+    destruct D as [D|D]; [rewrite D; reflexivity|].
+    rewrite match_nonempty by (intro Z; apply map_eq_nil in Z; contradiction).
+    unfold feats_of. cbn [f_files].
+    rewrite map_app, !filter_map_comm, !map_map. cbn [fst snd].
+    rewrite !(map_ext (fun x : string * list (list Q) => (fst x, snd x)) (fun x => x)) by (intros [? ?]; reflexivity).
+    rewrite !map_id.
+    rewrite from_pairs_nodup.
+    - apply (lookup_partition (fun nr : string * list (list Q) => nonempty (snd nr))). exact Hnd.
+    - eapply Permutation_NoDup; [apply Permutation_map, filter_partition_perm | exact Hnd].
+  Qed.
+
+  Lemma p2d_empty d name : feats_of (d_kp d) name = None -> p2d_of tok show d name = [].
+  Proof.
+    unfold feats_of, p2d_of. destruct (d_kp d) as [f|]; [|reflexivity]. intros ->. cbn.
+    destruct (nonempty (d_points d) && nonempty (d_obs d)); reflexivity.
+  Qed.
+
+  Lemma kp_txt_none d T : (forall name, feats_of (d_kp d) name = None) ->
+    import_kp_txt tok read (flat_map (timage_of tok show d T) (numbered_images d)) = None.
+  Proof.
+    intros H. unfold import_kp_txt. rewrite flat_map_nil; [reflexivity|]. intros ti I.
+    apply in_flat_map in I. destruct I as [ie [_ I]]. unfold timage_of in I.
+    destruct (lookup2 (its (snd ie)) (icam (snd ie)) T); [|destruct I]. destruct I as [<-|[]]. cbn.
+    rewrite p2d_empty by apply H. reflexivity.
+  Qed.
+
+  Lemma kp_fallback_none d : (forall name, feats_of (d_kp d) name = None) ->
+    match export_timages comp tok show false d with Some is => import_kp_txt tok read is | None => None end = None.
+  Proof.
+    intros H. unfold export_timages. destruct (wtr d) as [T|]; [|reflexivity]. apply kp_txt_none; assumption.
+  Qed.
+
+  Lemma import_export_feats' d cut fo dc name : NoDup (image_names d) -> feats_in_range d cut fo = true ->
+    feats_of (import_feats (Rdb d) dc (export_feats d cut fo)) name = feats_of fo name.
+  Proof. destruct fo as [f|]; [apply import_export_feats | reflexivity]. Qed.
+
+  (* 4. by image name (any name): the same keypoints, the same descriptors; nothing for other names *)
+  Lemma kp_back d name : inr d = true -> feats_of (d_kp (back d)) name = feats_of (d_kp d) name.
+  Proof.
+    intros IR. pose proof (in_range_names d IR) as NDn.
+    destruct (in_range_facts d IR) as (_ & _ & _ & _ & _ & _ & _ & _ & _ & Hkp & _).
+    unfold back, import_data. cbn [d_kp fst snd].
+    change (db_kp (exdb d)) with (export_feats d true (d_kp d)).
+    change (tx_images tok (extx d)) with (export_timages comp tok show false d).
+    pose proof (fun n => import_export_feats' d true (d_kp d) 6%Z n NDn Hkp) as H.
+    destruct (import_feats (Rdb d) 6 (export_feats d true (d_kp d))) as [f'|].
+    - exact (H name).
+    - rewrite kp_fallback_none; [exact (H name) | intros n; symmetry; exact (H n)].
+  Qed.
+
+  Lemma desc_back d name : inr d = true -> feats_of (d_desc (back d)) name = feats_of (d_desc d) name.
+  Proof.
+    intros IR. pose proof (in_range_names d IR) as NDn.
+    destruct (in_range_facts d IR) as (_ & _ & _ & _ & _ & _ & _ & _ & _ & _ & Hds & _).
+    unfold back, import_data. cbn [d_desc fst snd].
+    change (db_desc (exdb d)) with (export_feats d false (d_desc d)).
+    apply import_export_feats'; assumption.
+  Qed.
+
+  (* ---------------------------------------------------------------- matches *)
+  Lemma in_range_count d : inr d = true -> (Z.of_nat (List.length (images_of d)) < M - 1)%Z.
+  Proof. intros H. apply in_range_facts in H. destruct H as (_ & _ & _ & _ & H & _). apply Z.ltb_lt in H. exact H. Qed.
+
+  Lemma id_range d name : inr d = true -> In name (image_names d) -> (0 <= id_of d name < M)%Z.
+  Proof.
+    intros IR I. pose proof (in_range_count d IR) as C. destruct (known_numbered d name I) as (i & e & Ii & <-).
+    rewrite (id_of_numbered d i e (in_range_names d IR) Ii). apply numbered_range in Ii. lia.
+  Qed.
+
+  Lemma id_of_inj d n n' : NoDup (image_names d) -> In n (image_names d) -> In n' (image_names d) ->
+    id_of d n = id_of d n' -> n = n'.
+  Proof.
+    intros ND I I' E. destruct (known_numbered d n I) as (i & e & Ii & <-).
+    destruct (known_numbered d n' I') as (j & e' & Ij & <-).
+    rewrite (id_of_numbered d i e ND Ii), (id_of_numbered d j e' ND Ij) in E. subst j.
+    rewrite (number_from_fun _ _ _ _ _ Ii Ij). reflexivity.
+  Qed.
+
+  (* the column swap applied by add_matches when id1 > id2 is undone by the importer, and none is applied
+     when the ids are in order: whatever the order of the ids, the pair comes back under the same key with the same rows *)
+  Lemma import_export_match d n1 n2 rows : inr d = true ->
+    In n1 (image_names d) -> In n2 (image_names d) -> sleb n1 n2 = true ->
+    import_match M (Rdb d) (export_match M d ((n1, n2), rows)) = [((n1, n2), rows)].
+  Proof.
+    intros IR I1 I2 L. pose proof (in_range_names d IR) as ND.
+    pose proof (id_range d n1 IR I1) as R1. pose proof (id_range d n2 IR I2) as R2.
+    unfold export_match, import_match. cbn [fst snd]. rewrite pair_id_roundtrip by assumption. cbn [fst snd].
+    destruct (Z.gtb_spec (id_of d n1) (id_of d n2)) as [G|G].
+    - rewrite Z.min_r, Z.max_l by lia. rewrite !resolve_name by assumption.
+      unfold out_of_order, sltb. destruct (sleb n2 n1) eqn:L2.
+      + exfalso. assert (n1 = n2) by (apply sleb_antisym; assumption). subst n2. lia.
+      + cbn. rewrite swap_involutive. reflexivity.
+    - rewrite Z.min_l, Z.max_r by lia. rewrite !resolve_name by assumption.
+      unfold out_of_order, sltb. rewrite L. reflexivity.
+  Qed.
+
+  Lemma flat_map_map {A B C} (f : B -> list C) (g : A -> B) (l : list A) : flat_map f (map g l) = flat_map (fun x => f (g x)) l.
+  Proof. induction l as [|x l IH]; cbn; [reflexivity | rewrite IH; reflexivity]. Qed.
+
+  Lemma export_pair_ids_NoDup d m : inr d = true -> d_matches d = Some m -> NoDup (map fst (map (export_match M d) m)).
+  Proof.
+    intros IR Em. pose proof (in_range_names d IR) as ND.
+    destruct (in_range_facts d IR) as (_ & _ & _ & _ & _ & _ & _ & _ & _ & _ & _ & Hm & _). rewrite Em in Hm.
+    apply andb_true_iff in Hm. destruct Hm as [Hnd Hk]. apply nodupb_NoDup in Hnd. rewrite forallb_forall in Hk.
+    assert (Emap : map fst (map (export_match M d) m)
+                   = map (fun p : string * string => pair_id M (id_of d (fst p)) (id_of d (snd p))) (keys m)).
+    { unfold keys. rewrite !map_map. apply map_ext. intros [[a b] r]. reflexivity. }
+    rewrite Emap.
+    apply NoDup_map_inj_in; [|exact Hnd].
+    intros [a b] [c e] Ip Iq E. cbn [fst snd] in E.
+    pose proof (Hk _ Ip) as Hp. pose proof (Hk _ Iq) as Hq. cbn [fst snd] in Hp, Hq.
+    rewrite !andb_true_iff in Hp, Hq. destruct Hp as [[Ia Ib] Lab]. destruct Hq as [[Ic Ie] Lce].
+    apply memb_In in Ia, Ib, Ic, Ie.
+    apply pair_id_inj in E; try (apply id_range; assumption).
+    destruct E as [[E1 E2]|[E1 E2]].
+    - apply (id_of_inj d _ _ ND Ia Ic) in E1. apply (id_of_inj d _ _ ND Ib Ie) in E2. subst. reflexivity.
+    - apply (id_of_inj d _ _ ND Ia Ie) in E1. apply (id_of_inj d _ _ ND Ib Ic) in E2. subst.
+      assert (c = e) by (apply sleb_antisym; assumption). subst. reflexivity.
+  Qed.
+
+  (* 5. the matches: exactly the same table (same pairs, same rows, nothing else) *)
+  Lemma matches_back d : inr d = true -> d_matches (back d) = Some (dflt [] (d_matches d)).
+  Proof.
+    intros IR. unfold back, import_data. cbn [d_matches fst snd].
+    change (db_matches (exdb d)) with (export_matches M d). f_equal. unfold export_matches.
+    destruct (d_matches d) as [m|] eqn:Em; [|reflexivity]. cbn [dflt].
+    pose proof (export_pair_ids_NoDup d m IR Em) as NDp.
+    destruct (in_range_facts d IR) as (_ & _ & _ & _ & _ & _ & _ & _ & _ & _ & _ & Hm & _). rewrite Em in Hm.
+    apply andb_true_iff in Hm. destruct Hm as [Hnd Hk]. apply nodupb_NoDup in Hnd. rewrite forallb_forall in Hk.
+    rewrite first_wins_nodup; [|exact NDp | intros k []].
+    unfold import_matches. rewrite flat_map_map.
+    rewrite (flat_map_ext_in _ (fun e => [e])).
+    - rewrite flat_map_singleton. apply from_pairs_nodup. exact Hnd.
+    - intros [[n1 n2] rows] I. assert (Ik : In (n1, n2) (keys m)) by (unfold keys; apply in_map_iff; exists (n1, n2, rows); auto).
+      pose proof (Hk _ Ik) as Hp. cbn [fst snd] in Hp. rewrite !andb_true_iff in Hp. destruct Hp as [[I1 I2] L].
+      apply memb_In in I1, I2. apply import_export_match; assumption.
+  Qed.
+
+  Lemma matches_of_back d p : inr d = true -> matches_of (back d) p = matches_of d p.
+  Proof.
+    intros IR. unfold matches_of. rewrite matches_back by assumption. destruct (d_matches d); reflexivity.
+  Qed.
+
+  (* ---------------------------------------------------------------- 3-D points *)
+  Lemma map_number_from_snd {A B} (F : A -> B) (k : Z) (l : list A) : map (fun ix => F (snd ix)) (number_from k l) = map F l.
+  Proof. rewrite <- (map_map snd F), number_from_snd. reflexivity. Qed.
+
+  Definition rgb_of (r : list Q) : list Z :=
+    match r with [_; _; _; cr; cg; cb] => [Qtrunc cr; Qtrunc cg; Qtrunc cb] | _ => [0; 0; 0]%Z end.
+
+  Lemma points_back d :
+    d_points (back d) = map (fun r => map read (map show (firstn 3 r)) ++ map inject_Z (rgb_of r)) (d_points d).
+  Proof.
+    unfold back, import_data. cbn [d_points fst snd tx_points export_txt]. unfold import_points, export_tpoints.
+    rewrite map_map. cbn [tp_xyz tp_rgb tpoint_of].
+    exact (map_number_from_snd (fun r => map read (map show (firstn 3 r)) ++ map inject_Z (rgb_of r)) 0%Z (d_points d)).
+  Qed.
+
+  Lemma in_range_points d r : inr d = true -> In r (d_points d) -> List.length r = 3%nat \/ List.length r = 6%nat.
+  Proof.
+    intros IR I. destruct (in_range_facts d IR) as (_ & _ & _ & _ & _ & _ & _ & _ & _ & _ & _ & _ & H & _).
+    rewrite forallb_forall in H. specialize (H r I). apply orb_true_iff in H. destruct H as [H|H]; apply Nat.eqb_eq in H; auto.
+  Qed.
+
+  (* 6. the 3-D points: same number, same order, same coordinates *)
+  Lemma xyz_back d : inr d = true -> xyz_of (back d) = xyz_of d.
+  Proof.
+    intros IR. unfold xyz_of. rewrite points_back, map_map. apply map_ext_in. intros r I.
+    destruct (in_range_points d r IR I) as [L|L];
+      destruct r as [|a [|b [|c [|e [|f [|g [|]]]]]]]; try discriminate L; cbn; rewrite !read_show; reflexivity.
+  Qed.
+
+  (* ... and the colours too when they are integers (COLMAP stores them as bytes) *)
+  Lemma points_back_exact d : inr d = true ->
+    (forall r, In r (d_points d) -> List.length r = 6%nat /\ forallb is_int (skipn 3 r) = true) ->
+    d_points (back d) = d_points d.
+  Proof.
+    intros IR H. rewrite points_back. rewrite <- (map_id (d_points d)) at 2. apply map_ext_in. intros r I.
+    destruct (H r I) as [L C]. destruct r as [|a [|b [|c [|e [|f [|g [|]]]]]]]; try discriminate L.
+    cbn in C. rewrite !andb_true_iff in C. destruct C as (Ce & Cf & Cg & _).
+    cbn. rewrite !read_show, !inject_Z_Qtrunc by assumption. reflexivity.
+  Qed.
+
+  (* ---------------------------------------------------------------- observations *)
+  Lemma number_from_exists {A} (k : Z) (l : list A) j : (k <= j < k + Z.of_nat (List.length l))%Z -> exists x, In (j, x) (number_from k l).
+  Proof.
+    revert k; induction l as [|y l IH]; intros k Hj; cbn [List.length number_from] in *; [lia|].
+    destruct (Z.eq_dec j k) as [->|N]; [exists y; left; reflexivity|].
+    destruct (IH (k + 1)%Z) as [x Ix]; [lia|]. exists x. right. exact Ix.
+  Qed.
+
+  Definition track_names d : al Z string :=
+    update (from_pairs (id_names (Rdb d)))
+           (id_names match export_timages comp tok show false d with
+                     | Some is => import_records_txt tok cam_name is
+                     | None => []
+                     end).
+
+  Lemma id_names_db d : id_names (Rdb d) = map (fun ie => (fst ie, iname (snd ie))) (numbered_images d).
+  Proof.
+    unfold id_names. change (flat2 (Rdb d)) with (images_of (back d)). rewrite images_back, map_map. reflexivity.
+  Qed.
+
+  Lemma id_names_txt d T :
+    id_names (import_records_txt tok cam_name (flat_map (timage_of tok show d T) (numbered_images d)))
+    = map (fun ie => (fst ie, iname (snd ie))) (List.filter (posed_in T) (numbered_images d)).
+  Proof.
+    unfold import_records_txt.
+    rewrite (fold_set2_fresh (@ti_id tok) (fun ti => cam_name (ti_cam tok ti)) (@ti_name tok)).
+    - cbn [app]. unfold id_names. rewrite flat2_singletons, map_map. cbn [its iname fst snd].
+      induction (numbered_images d) as [|ie l IH]; [reflexivity|]. cbn [flat_map List.filter]. rewrite map_app, IH.
+      assert (E : posed_in T ie = match lookup2 (its (snd ie)) (icam (snd ie)) T with Some _ => true | None => false end)
+        by reflexivity.
+      rewrite E. unfold timage_of. destruct (lookup2 (its (snd ie)) (icam (snd ie)) T); reflexivity.
+    - cbn [keys map app]. rewrite timage_ids. apply NoDup_map_fst_filter, number_from_NoDup.
+  Qed.
+
+  Lemma track_names_lookup d i e : In (i, e) (numbered_images d) -> lookup i (track_names d) = Some (iname e).
+  Proof.
+    intros I. unfold track_names.
+    assert (A : lookup i (from_pairs (id_names (Rdb d))) = Some (iname e)).
+    { rewrite id_names_db. rewrite from_pairs_nodup by (rewrite map_map; apply number_from_NoDup).
+      apply In_lookup; [unfold keys; rewrite map_map; apply number_from_NoDup|].
+      apply in_map_iff. exists (i, e). auto. }
+    unfold export_timages. destruct (wtr d) as [T|]; [|exact A].
+    rewrite id_names_txt. rewrite lookup_update by (rewrite map_map; apply NoDup_map_fst_filter, number_from_NoDup).
+    destruct (lookup i (map (fun ie : Z * (Z * string * string) => (fst ie, iname (snd ie)))
+                            (List.filter (posed_in T) (numbered_images d)))) as [v|] eqn:L; [|exact A].
+    apply lookup_In, in_map_iff in L. destruct L as [[j e'] [E I']]. cbn in E. inversion E; subst.
+    apply filter_In in I'. destruct I' as [I' _]. rewrite (number_from_fun _ _ _ _ _ I I'). reflexivity.
+  Qed.
+
+  Definition obs_entry d (ir : Z * list Q) : list (Z * list (string * Z)) :=
+    let track := map (fun nk : string * Z => (id_of d (fst nk), snd nk)) (obs_of d (fst ir)) in
+    if nonempty track && nonempty (track_names d)
+    then [(fst ir, map (fun ik : Z * Z => (dflt "unknown" (lookup (fst ik) (track_names d)), snd ik)) track)]
+    else [].
+
+  Lemma obs_back_list d : d_obs (back d) = flat_map (obs_entry d) (number_from 0%Z (d_points d)).
+  Proof.
+    unfold back, import_data. cbn [d_obs fst snd tx_points tx_images export_txt]. fold (track_names d).
+    unfold import_obs, export_tpoints. rewrite number_from_map, number_from_twice, map_map, flat_map_map.
+    apply flat_map_ext_in. intros ir _. reflexivity.
+  Qed.
+
+  Lemma in_range_obs d j l : inr d = true -> lookup j (d_obs d) = Some l ->
+    (0 <= j < Z.of_nat (List.length (d_points d)))%Z /\ forall n k, In (n, k) l -> In n (image_names d).
+  Proof.
+    intros IR L. destruct (in_range_facts d IR) as (_ & _ & _ & _ & _ & _ & _ & _ & _ & _ & _ & _ & _ & _ & H).
+    rewrite forallb_forall in H. specialize (H (j, l) (lookup_In _ _ _ L)). cbn [fst snd] in H.
+    rewrite !andb_true_iff in H. destruct H as [[H1 H2] H3]. split; [lia|].
+    intros n k I. rewrite forallb_forall in H3. apply memb_In. exact (H3 (n, k) I).
+  Qed.
+
+  (* 7. the observations of every point: the same list of (image name, feature index) *)
+  Lemma obs_back d j : inr d = true -> obs_of (back d) j = obs_of d j.
+  Proof.
+    intros IR. pose proof (in_range_names d IR) as ND. unfold obs_of at 1. rewrite obs_back_list.
+    assert (K : forall x kv, In kv (obs_entry d x) -> fst kv = fst x).
+    { intros x kv. unfold obs_entry. cbv zeta. destruct (_ && _); cbn; [intros [<-|[]]; reflexivity | tauto]. }
+    destruct (in_dec Z.eq_dec j (map fst (number_from 0%Z (d_points d)))) as [I|NI].
+    - apply in_map_iff in I. destruct I as [[j' r] [E I]]. cbn in E. subst j'.
+      rewrite (lookup_flat_map_single (fun ir : Z * list Q => fst ir) (obs_entry d) K _ (j, r) (number_from_NoDup _ _) I).
+      unfold obs_entry. cbn [fst]. unfold obs_of. destruct (lookup j (d_obs d)) as [l|] eqn:L; [|reflexivity].
+      cbn [dflt]. destruct l as [|[n k] l'] eqn:El; [reflexivity|]. rewrite <- El.
+      destruct (in_range_obs d j _ IR L) as [_ Hn]. rewrite <- El in Hn.
+      assert (I0 : In (n, k) l) by (rewrite El; left; reflexivity).
+      assert (NE : nonempty (track_names d) = true).
+      { destruct (known_numbered d n (Hn n k I0)) as (i & e & Ii & _).
+        pose proof (track_names_lookup d i e Ii) as TL. destruct (track_names d); [discriminate | reflexivity]. }
+      assert (NEl : nonempty (map (fun nk : string * Z => (id_of d (fst nk), snd nk)) l) = true) by (rewrite El; reflexivity).
+      rewrite NEl, NE. cbn [andb lookup]. rewrite eqb_refl. cbn [dflt]. rewrite map_map.
+      rewrite <- (map_id l) at 2. apply map_ext_in. intros [n' k'] I'. cbn [fst snd].
+      destruct (known_numbered d n' (Hn n' k' I')) as (i & e & Ii & <-).
+      rewrite (id_of_numbered d i e ND Ii), (track_names_lookup d i e Ii). reflexivity.
+    - rewrite (lookup_flat_map_none (fun ir : Z * list Q => fst ir) (obs_entry d) K).
+      + unfold obs_of. destruct (lookup j (d_obs d)) as [l|] eqn:L; [|reflexivity]. exfalso. apply NI.
+        destruct (in_range_obs d j l IR L) as [Hj _]. destruct (number_from_exists 0%Z (d_points d) j) as [x Ix]; [lia|].
+        apply in_map_iff. exists (j, x). auto.
+      + intros x Ix E. apply NI. apply in_map_iff. exists x. auto.
+  Qed.
+
+  (* ---------------------------------------------------------------- no step raises *)
+  Lemma feats_known_in_range d cut fo : feats_in_range d cut fo = true -> feats_known d fo = true.
+  Proof.
+    destruct fo as [f|]; [|reflexivity]. unfold feats_in_range, feats_known. rewrite !andb_true_iff. intros [[_ H] _].
+    rewrite forallb_forall in *. intros nr I. unfold known_image. rewrite mem_image_ids. apply H. unfold keys. apply in_map. exact I.
+  Qed.
+
+  Lemma in_range_export_ok d : inr d = true -> export_ok comp model_ids unknown unknown_as focal_factor false d = true.
+  Proof.
+    intros IR. pose proof (in_range_sensors d IR) as NDs.
+    destruct (in_range_facts d IR) as (_ & _ & _ & _ & _ & H6 & H7 & H8 & H9 & H10 & H11 & H12 & _ & _ & _).
+    unfold export_ok. rewrite H8, H9, H7, (feats_known_in_range _ _ _ H10), (feats_known_in_range _ _ _ H11). cbn [andb].
+    rewrite !andb_true_iff. repeat split.
+    - rewrite forallb_forall in *. intros e I. specialize (H6 e I).
+      destruct (lookup (icam e) (d_sensors d)) as [[m ps|]|] eqn:L; try discriminate.
+      pose proof (cam_list_In d _ _ _ L) as Ic. destruct (number_from_In_snd 1%Z _ _ Ic) as [c Icn].
+      unfold mem. rewrite (cam_ids_lookup d c _ _ NDs Icn). reflexivity.
+    - destruct (d_matches d) as [m|]; [|reflexivity]. apply andb_true_iff in H12. destruct H12 as [_ H12].
+      rewrite forallb_forall in *. intros e I. unfold known_image. rewrite !mem_image_ids.
+      assert (Ik : In (fst e) (keys m)) by (unfold keys; apply in_map; exact I).
+      specialize (H12 _ Ik). rewrite !andb_true_iff in H12. rewrite andb_true_iff. tauto.
+    - rewrite forallb_forall. intros ir _. rewrite forallb_forall. intros [n k] I. cbn [fst].
+      unfold known_image. rewrite mem_image_ids. apply memb_In. unfold obs_of in I.
+      destruct (lookup (fst ir) (d_obs d)) as [l|] eqn:L; [|destruct I].
+      destruct (in_range_obs d _ _ IR L) as [_ Hn]. exact (Hn n k I).
+  Qed.
+
+  (* 0. the round trip of an in-range dataset never raises *)
+  Lemma roundtrip_ok d : inr d = true -> rt d = ROk (back d).
+  Proof.
+    intros IR. unfold roundtrip, export. rewrite (in_range_export_ok d IR). unfold import, import_ok. cbn [snd].
+    destruct (tx_images tok (extx d)); reflexivity.
+  Qed.
+
+  (* ---------------------------------------------------------------- which trajectories are written *)
+  Lemma wtraj_no_rigs d : d_rigs d = None -> wtr d = d_traj d.
+  Proof. intros E. unfold wtraj, world_traj. rewrite E. reflexivity. Qed.
+
+  Lemma wtraj_rigs d R T T' : d_rigs d = Some R -> d_traj d = Some T ->
+    remove_inplace pose comp max_depth R T = Done T' -> wtr d = Some T'.
+  Proof. intros ER ET E. unfold wtraj, world_traj. rewrite ER, ET, E. reflexivity. Qed.
+
+  Lemma wtraj_rigs_no_traj d R : d_rigs d = Some R -> d_traj d = None -> wtr d = None.
+  Proof. intros ER ET. unfold wtraj, world_traj. rewrite ER, ET. reflexivity. Qed.
+
+  (* in range, rigs are flattened: no trajectory entry names a rig any more *)
+  Lemma in_range_flat d R T : inr d = true -> d_rigs d = Some R -> wtr d = Some T ->
+    forall t dev p, lookup2 t dev T = Some p -> is_rig R dev = false.
+  Proof.
+    intros IR ER W t dev p L. destruct (in_range_facts d IR) as (_ & _ & _ & _ & _ & _ & _ & _ & H9 & _).
+    apply negb_true_iff in H9. unfold rigs_still_used in H9. rewrite ER in H9.
+    destruct (nonempty R) eqn:NE.
+    - rewrite W in H9. destruct (is_rig R dev) eqn:IsR; [|reflexivity]. exfalso.
+      assert (Ex : existsb (fun e : Z * string * pose => is_rig R (snd (fst e))) (flat2 T) = true).
+      { apply existsb_exists. exists (t, dev, p). split; [|exact IsR].
+        unfold lookup2 in L. destruct (lookup t T) as [inner|] eqn:Lt; [|discriminate].
+        unfold flat2. apply in_flat_map. exists (t, inner). split; [apply lookup_In; exact Lt|].
+        apply in_map_iff. exists (dev, p). split; [reflexivity | apply lookup_In; exact L]. }
+      congruence.
+    - destruct R; [reflexivity | discriminate].
+  Qed.
+
+  Lemma in_range_rigs_done d R T : inr d = true -> d_rigs d = Some R -> d_traj d = Some T ->
+    exists T', remove_inplace pose comp max_depth R T = Done T' /\ wtr d = Some T'.
+  Proof.
+    intros IR ER ET. destruct (in_range_facts d IR) as (_ & _ & _ & _ & _ & _ & _ & H8 & _).
+    unfold wtraj. unfold world_traj in *. rewrite ER, ET in *.
+    destruct (remove_inplace pose comp max_depth R T) as [T'| |]; try discriminate. exists T'. split; reflexivity.
   Qed.
 End RoundTrip.
+
+(* ------------------------------------------------------------------ the naming used in executions is injective *)
+Lemma pos_name_inj p q : pos_name p = pos_name q -> p = q.
+Proof.
+  revert q; induction p as [p IH|p IH|]; intros [q|q|]; cbn; intros E; try discriminate; try reflexivity;
+    inversion E as [E']; f_equal; apply IH; exact E'.
+Qed.
+Lemma cam_name_x_inj a b : cam_name_x a = cam_name_x b -> a = b.
+Proof.
+  destruct a as [|p|p], b as [|q|q]; cbn; intros E; try discriminate; try reflexivity;
+    inversion E as [E']; f_equal; apply pos_name_inj; exact E'.
+Qed.
